@@ -109,7 +109,7 @@ type Exec struct {
 	Steps    int
 	maxSteps int
 
-	Horizon  bool     // the step horizon cut this execution (unfair schedule)
+	Horizon  bool // the step horizon cut this execution (unfair schedule)
 	Deadlock bool
 	Blocked  []string // threads left blocked at quiescence
 	Panics   []string
